@@ -47,6 +47,8 @@ VARIANTS = {
     "rydberg_level=70": dict(rydberg_level=70),
     "max_seq=300": dict(max_seq=300),
     "bottom=-1": dict(bottom_det=-1.0, total_bottom_det=-2.0),
+    # between the per-atom limits of two detuning maps configured on ONE DMM id (largest weights 0.75 and 1.0, detuning -1.5)
+    "bottom=-1.4": dict(bottom_det=-1.4, total_bottom_det=-60.0),
     "renamed": dict(),  # identical in every parameter: the switch must succeed and change nothing
 }
 
